@@ -158,6 +158,36 @@ func GzipPacked(body []byte) []byte {
 	return (&W{}).U32(IDGzipPacked).Str(zb.Bytes()).B
 }
 
+// GzipDamaged builds a gzip_packed whose TL envelope is well formed but whose stream is damaged: how = 0 the stream
+// ends before the trailer, 1 wrong CRC-32 in the trailer, 2 wrong size in the trailer, 3 a byte of the deflate data
+// changed, 4 the stream ends in the middle of the deflate data, 5 trailing bytes after a complete stream.
+func GzipDamaged(body []byte, how int, at int) []byte {
+	var zb bytes.Buffer
+	zw := gzip.NewWriter(&zb)
+	zw.Write(body)
+	zw.Close()
+	z := zb.Bytes()
+	switch how % 6 {
+	case 0:
+		z = z[:len(z)-8]
+	case 1:
+		z[len(z)-8] ^= 0x55
+	case 2:
+		z[len(z)-4] ^= 0x55
+	case 3:
+		if len(z) > 19 {
+			z[10+at%(len(z)-18)] ^= 1 << (at % 7)
+		}
+	case 4:
+		if len(z) > 20 {
+			z = z[:10+(len(z)-18)/2]
+		}
+	case 5:
+		z = append(z, 0xde, 0xad, 0xbe, 0xef, 1, 2, 3)
+	}
+	return (&W{}).U32(IDGzipPacked).Str(z).B
+}
+
 // RpcResult builds rpc_result{req_msg_id, result}.
 func RpcResult(reqMsgID int64, result []byte) []byte {
 	return (&W{}).U32(IDRpcResult).I64(reqMsgID).Raw(result).B
